@@ -8,7 +8,7 @@ from . import pool
 CIPHERS = {'TripleDES': 2, 'CAST5': 3, 'Blowfish': 4, 'AES128': 7, 'AES192': 8, 'AES256': 9, 'Camellia128': 11, 'Camellia192': 12, 'Camellia256': 13}
 S2K_HASHES = ['MD5', 'SHA1', 'RIPEMD160', 'SHA224', 'SHA256', 'SHA384', 'SHA512']
 COMPRESSIONS = ['Uncompressed', 'ZIP', 'ZLIB', 'BZ2']
-RECIPIENTS = ['rsa1024_1', 'rsa2048_1', 'rsa3072_0', 'cv25519_0', 'ecdh_p256_0', 'ecdh_p384_0', 'ecdh_p521_0', 'ecdh_k256_0']
+RECIPIENTS = ['rsa1024_1', 'rsa2048_1', 'rsa3072_0', 'cv25519_0', 'ecdh_p256_0', 'ecdh_p384_0', 'ecdh_p521_0', 'ecdh_k256_0', 'ecdh_p256_1+kdf10.9', 'cv25519_1+kdf9.8']
 
 
 def recipient(name, as_subkey=True):
